@@ -26,6 +26,7 @@ import (
 	"net"
 	"os"
 	"strconv"
+	"strings"
 	"sync"
 	"sync/atomic"
 	"time"
@@ -48,6 +49,7 @@ type svec struct {
 	Writes    []string `json:"writes"`
 	Delivered int      `json:"delivered"`
 	Final     string   `json:"final"`
+	Hdr       *hdrExp  `json:"hdr"` // header-decoding readers: frames (1-based) handed out when carrying on / giving up at the first runt
 	// id
 	Transport string    `json:"transport"`
 	Inbox     []string  `json:"inbox"`
@@ -60,6 +62,7 @@ type svec struct {
 	Rule      string    `json:"rule"`     // repoint: "stream" | "dgram" | "either"
 	Admitted  []idRes   `json:"admitted"` // repoint: results admitted for the second exchange
 	Extend    int       `json:"extend"`   // how often the read deadline may be moved later after the request was written
+	Q         string    `json:"q"`        // id: how the question is spelled ("" / "plain", "escaped", "lowered": the server echoes it in lower case)
 	// set by the harness in replay files: run only this path
 	Path string `json:"path,omitempty"`
 }
@@ -102,6 +105,11 @@ func (v *svec) stream() (wire []byte, bodies [][]byte) {
 		wire = append(wire, frame(p)...)
 	}
 	return
+}
+
+type hdrExp struct {
+	CarryOn []int `json:"carryon"`
+	Stop    []int `json:"stop"`
 }
 
 type idRes struct {
@@ -233,6 +241,89 @@ func (r *runner) clientRead(v *svec, api string) {
 	}
 	if got != v.Delivered {
 		r.mis(v, api, "delivered-count", fmt.Sprintf("%d messages delivered before the error (%v), spec %d", got, lastErr, v.Delivered))
+	}
+}
+
+// hasRunt: some frame on the wire has a body shorter than a DNS header
+func (v *svec) hasRunt() bool {
+	for i, n := range v.Sizes {
+		if n < 12 && v.Writes[i] != "refused" {
+			return true
+		}
+	}
+	return false
+}
+
+// clientReadHdr: scenarios with runt frames through the header-decoding readers.  The reader is asked for more after
+// every error (the stream was written and closed beforehand, so every call returns); what it hands out, in order, must be
+// the spec's list for a reader that carries on after a runt or for one that gives up at the first runt (Stream!HdrReader).
+func (r *runner) clientReadHdr(v *svec, api string) {
+	wire, bodies := v.stream()
+	upto := v.EOF
+	if upto > len(wire) {
+		upto = len(wire)
+	}
+	c, s := memnet.Pipe()
+	c.ScriptRead(memnet.Script{Chunks: v.Chunks, CutAt: -1})
+	s.Write(wire[:upto])
+	s.CloseWrite()
+	defer c.Close()
+	co := &dns.Conn{Conn: c}
+	var got []int // 1-based frame indices handed out
+	next := 0     // frames before this one cannot be handed out any more
+	for k := 0; k < len(bodies)+3; k++ {
+		var p []byte
+		var err error
+		if api == "ReadMsgHeader" {
+			p, err = co.ReadMsgHeader(nil)
+		} else {
+			var m *dns.Msg
+			m, err = co.ReadMsg()
+			if err == nil {
+				for j := next; j < len(bodies); j++ {
+					if len(bodies[j]) >= 12 && checkMsg(m, j, bodies) != nil {
+						p = bodies[j]
+						break
+					}
+				}
+				if p == nil {
+					r.mis(v, api, "message-mangled", fmt.Sprintf("read %d handed out a message (id %#x) that is none of the messages framed behind frame %d", k, m.Id, next))
+					return
+				}
+			}
+		}
+		if err != nil {
+			continue
+		}
+		found := -1
+		for j := next; j < len(bodies); j++ {
+			if bytes.Equal(p, bodies[j]) {
+				found = j
+				break
+			}
+		}
+		if found < 0 {
+			r.mis(v, api, "message-mangled", fmt.Sprintf("read %d handed out %d octets that are not the body of any frame behind frame %d", k, len(p), next))
+			return
+		}
+		next = found + 1
+		if len(bodies[found]) >= 12 { // a runt handed out as it is, is the caller's business
+			got = append(got, found+1)
+		}
+	}
+	same := func(a, b []int) bool {
+		if len(a) != len(b) {
+			return false
+		}
+		for i := range a {
+			if a[i] != b[i] {
+				return false
+			}
+		}
+		return true
+	}
+	if !same(got, v.Hdr.CarryOn) && !same(got, v.Hdr.Stop) {
+		r.mis(v, api, "delivered-around-runt", fmt.Sprintf("frames handed out %v; spec: %v (reader carries on after a runt) or %v (reader gives up at the first runt)", got, v.Hdr.CarryOn, v.Hdr.Stop))
 	}
 }
 
@@ -732,13 +823,17 @@ func (r *runner) stream(v *svec) {
 	if !refusal || v.Path != "" {
 		for _, api := range []string{"ReadMsgHeader", "Read", "ReadMsg"} {
 			if want(api) {
-				r.clientRead(v, api)
+				if api != "Read" && v.Hdr != nil && v.hasRunt() {
+					r.clientReadHdr(v, api)
+				} else {
+					r.clientRead(v, api)
+				}
 			}
 		}
 		if want("readTCP") {
 			r.serverRead(v)
 		}
-		if len(v.ShortW) == 0 && v.EOF >= v.Total {
+		if len(v.ShortW) == 0 && v.EOF >= v.Total && !v.hasRunt() { // a datagram shorter than a header is not a message: nothing to deliver
 			for _, api := range []string{"dgram.ReadMsgHeader", "dgram.ReadMsg"} {
 				if want(api) {
 					r.dgramRead(v, api)
@@ -788,6 +883,9 @@ func idReply(q *dns.Msg, tag string, idx int) []byte {
 	m := new(dns.Msg)
 	m.SetReply(q)
 	m.Id = q.Id + delta(tag)
+	if curSpell == "lowered" { // a server that echoes the question in lower case: the same name (RFC 1035 2.3.3, RFC 4343)
+		m.Question[0].Name = strings.ToLower(m.Question[0].Name)
+	}
 	rr, _ := dns.NewRR(fmt.Sprintf("idx. 0 IN TXT \"%d\"", idx))
 	m.Answer = append(m.Answer, rr)
 	b, err := m.Pack()
@@ -833,7 +931,7 @@ func (r *runner) judgeID(v *svec, via string, q *dns.Msg, m *dns.Msg, err error)
 			}
 		} else if m.Id != q.Id || replyIdx(m) != v.Idx {
 			mis("wrong-reply-returned", fmt.Sprintf("Exchange returned reply #%d with id %d (query %d), spec: reply #%d", replyIdx(m), m.Id, q.Id, v.Idx))
-		} else if len(m.Question) != 1 || m.Question[0] != q.Question[0] {
+		} else if len(m.Question) != 1 || !sameQuestion(m.Question[0], q.Question[0]) {
 			mis("wrong-reply-returned", fmt.Sprintf("Exchange returned a reply for question %v, asked %v", m.Question, q.Question))
 		}
 	case "errid":
@@ -849,9 +947,27 @@ func (r *runner) judgeID(v *svec, via string, q *dns.Msg, m *dns.Msg, err error)
 	}
 }
 
+// how the question of the current id vector is spelled (vectors are replayed one after the other)
+var curSpell string
+
+// the same question: type, class and the wire form of the name up to ASCII case (the spelling of the text plays no role)
+func sameQuestion(a, b dns.Question) bool {
+	wa, wb := make([]byte, 256), make([]byte, 256)
+	na, ea := dns.PackDomainName(a.Name, wa, 0, nil, false)
+	nb, eb := dns.PackDomainName(b.Name, wb, 0, nil, false)
+	return ea == nil && eb == nil && a.Qtype == b.Qtype && a.Qclass == b.Qclass && bytes.EqualFold(wa[:na], wb[:nb])
+}
+
 func newQuery(i int) *dns.Msg {
 	q := new(dns.Msg)
-	q.SetQuestion("id.verif-harness.", dns.TypeA)
+	switch curSpell {
+	case "escaped": // the same octets written with a redundant escape: a faithful echo prints differently
+		q.SetQuestion("id.verif-h\\097rness.", dns.TypeA)
+	case "lowered":
+		q.SetQuestion("Id.Verif-HARNESS.", dns.TypeA)
+	default:
+		q.SetQuestion("id.verif-harness.", dns.TypeA)
+	}
 	q.Id = uint16(2000 + 7*i)
 	return q
 }
@@ -1306,8 +1422,10 @@ func replay(path string) {
 			seen[fmt.Sprint(v.Sizes, v.Chunks, v.EOF, v.ShortW)] = true
 			r.stream(v)
 		case "id":
-			seen[fmt.Sprint(v.Transport, v.Inbox, v.DL)] = true
+			seen[fmt.Sprint(v.Transport, v.Inbox, v.DL, v.Q)] = true
+			curSpell = v.Q
 			r.id(v, i)
+			curSpell = ""
 		case "repoint":
 			seen[fmt.Sprint(v.First, v.Second, v.Inbox)] = true
 			r.repoint(v, i)
